@@ -2,7 +2,9 @@
 (* Model-checking instance of LayoutFS: the operation x start-state list   *)
 (* (the same list drives harness/cmd/c07drv, see tools/props/c07.py).      *)
 EXTENDS LayoutFS
-Sc(start, kind, t, o, gc) == [start |-> start, kind |-> kind, t |-> t, o |-> o, gc |-> gc]
+Sc(start, kind, t, o, gc) == [start |-> start, kind |-> kind, t |-> t, o |-> o, gc |-> gc, f |-> NoF]
+\* a history of two operations: the first is interrupted, then fk (import / copy) of image fo under tag ft
+ScF(start, kind, t, o, gc, fk, ft, fo) == [Sc(start, kind, t, o, gc) EXCEPT !.f = [kind |-> fk, t |-> ft, o |-> fo]]
 FromEmpty == {Sc("E", "blob_put", "", "L3", FALSE), Sc("E", "blob_put", "", "L4", FALSE), Sc("E", "put_tag", "v1", "M1", FALSE),
               Sc("E", "put_digest", "", "M2", FALSE), Sc("E", "put_child", "", "M2", FALSE), Sc("E", "put_index", "ix", "IX", FALSE),
               Sc("E", "put_ref", "art", "A1", FALSE), Sc("E", "copy", "v1", "M1", TRUE), Sc("E", "copy", "ix", "IX", TRUE),
@@ -35,6 +37,16 @@ Shapes == {Sc("PB", "put_tag", "v2", "M2", TRUE), Sc("PB", "tag_delete", "v1", "
            Sc("PB", "blob_put", "", "L3", FALSE), Sc("PB", "tag_delete", "cache", "", TRUE), Sc("PB", "retag", "c2", "IB", TRUE),
            Sc("PB", "tag_delete", "nest", "", TRUE), Sc("E", "copy", "cache", "IB", TRUE), Sc("P1", "copy", "cache", "IB", TRUE),
            Sc("PB", "import", "v3", "M3", TRUE)}
+\* histories: crash state of the first operation (deletes + GC, interrupted pushes), then import / copy of the image
+Histories == {ScF("P2", "tag_delete", "v2", "", TRUE, "import", "v2", "M2"), ScF("P2", "tag_delete", "v2", "", TRUE, "copy", "v2", "M2"),
+              ScF("P2", "man_delete", "", "M2", TRUE, "import", "v2", "M2"), ScF("P2", "man_delete", "", "M2", TRUE, "copy", "v2", "M2"),
+              ScF("PX", "tag_delete", "ix", "", TRUE, "import", "ix", "IX"), ScF("PX", "man_delete", "", "IX", TRUE, "import", "ix", "IX"),
+              ScF("P1", "put_tag", "v2", "M2", FALSE, "copy", "v2", "M2"), ScF("P1", "put_tag", "v2", "M2", FALSE, "import", "v2", "M2"),
+              ScF("P1", "copy", "v2", "M2", TRUE, "import", "v2", "M2"), ScF("P1", "import", "v2", "M2", TRUE, "copy", "v2", "M2"),
+              ScF("P2", "retag", "v2", "M1", TRUE, "import", "w", "M2")}
+\* copy of an index after a sweep that was killed between a child's blob and the child's manifest: the child is
+\* skipped because its manifest file exists (findings/C07-3.md) - counterexample of FollowOK / CrashStateOK expected
+GcThenCopy == {ScF("PX", "man_delete", "", "IX", TRUE, "copy", "ix", "IX"), ScF("PX", "tag_delete", "ix", "", TRUE, "copy", "ix", "IX")}
 Retags == {Sc("P2", "retag", "v3", "M1", FALSE), Sc("P2", "retag", "v2", "M1", TRUE)}
 \* image copy with referrers: kept apart, its interrupted form is not repaired by a repetition (findings/C07-2.md)
 RefCopy == {Sc("E", "copy_ref", "v1", "M1", TRUE), Sc("P1", "copy_ref", "v1", "M1", TRUE)}
